@@ -26,9 +26,12 @@ func (a verifAddr) String() string  { return a.s }
 var verifClientAddr = &net.TCPAddr{IP: net.ParseIP("203.0.113.77"), Port: 54321}
 var verifStationAddr = &net.TCPAddr{IP: net.ParseIP("192.0.2.1"), Port: 443}
 
-func verifErr(kind int, op string) error {
+func verifErr(kind int, op string) error { return verifErrPeer(kind, op, verifClientAddr) }
+
+// verifErrPeer: the error shapes of the network stack on a connection to peer.
+func verifErrPeer(kind int, op string, peer net.Addr) error {
 	wrap := func(e error) error {
-		return &net.OpError{Op: op, Net: "tcp", Source: verifStationAddr, Addr: verifClientAddr, Err: e}
+		return &net.OpError{Op: op, Net: "tcp", Source: verifStationAddr, Addr: peer, Err: e}
 	}
 	switch kind {
 	case 0:
@@ -43,6 +46,14 @@ func verifErr(kind int, op string) error {
 		return net.ErrClosed
 	case 5:
 		return wrap(os.NewSyscallError(op, syscall.ENETUNREACH)) // an errno nobody listed
+	case 7:
+		return wrap(os.NewSyscallError(op, syscall.ETIMEDOUT)) // the kernel's timeout (peer vanished), not a deadline
+	case 8:
+		return wrap(os.NewSyscallError(op, syscall.EHOSTUNREACH))
+	case 9:
+		return wrap(os.NewSyscallError(op, syscall.ECONNREFUSED))
+	case 10:
+		return wrap(os.NewSyscallError(op, syscall.ECONNABORTED))
 	}
 	return errors.New("some other failure")
 }
